@@ -560,7 +560,17 @@ impl Dir {
                 _ => false,
             };
             let skip = [Attribute::LastModifiedCid, Attribute::CreatedAtCid];
-            parts.push(format!("{s}:{life:?}:{age}:{}", srv::render_entry(&e, &skip)));
+            // name_history values carry the change id of each rename (time + server uuid), which no
+            // later behaviour of a single server depends on: keep the names in their order only
+            let rendered: String = srv::render_entry(&e, &skip)
+                .split(';')
+                .map(|seg| match seg.strip_prefix("name_history=") {
+                    Some(v) => format!("name_history={}", v.split('|').map(|x| if x.len() > 70 && x.is_char_boundary(70) { &x[70..] } else { x }).collect::<Vec<_>>().join("|")),
+                    None => seg.to_string(),
+                })
+                .collect::<Vec<_>>()
+                .join(";");
+            parts.push(format!("{s}:{life:?}:{age}:{rendered}"));
         }
         parts.sort();
         parts.push(format!("dom={}", self.domain()));
@@ -803,7 +813,11 @@ impl World for Dir {
 
     fn canon(&mut self) -> u64 {
         let mut h = Fnv::new();
-        h.write_str(&self.canon_string());
+        let c = self.canon_string();
+        if std::env::var_os("KV_DUMP_CANON").is_some() {
+            eprintln!("CANON-BEGIN\n{c}\nCANON-END");
+        }
+        h.write_str(&c);
         h.finish()
     }
 }
